@@ -75,6 +75,12 @@ def SpecStep (m : Spec) : Op → Spec → Ret → Prop
   | .downloadStream n _ _, m', r => m' = m ∧ r = (match m n with | some d => .bytes d | none => .error .notFound)
   | .list pfx, m', r => m' = m ∧ ∃ l, r = .names l ∧ l.Nodup ∧ ∀ n, n ∈ l ↔ (m n).isSome = true ∧ pfx <+: n
 
+/-- a history against the specification: the maps and return values chain -/
+inductive SpecRun : Spec → List Op → Spec → List Ret → Prop
+  | nil (m : Spec) : SpecRun m [] m []
+  | cons {m m1 m2 : Spec} {op : Op} {ops : List Op} {r : Ret} {rs : List Ret}
+      (h : SpecStep m op m1 r) (t : SpecRun m1 ops m2 rs) : SpecRun m (op :: ops) m2 (r :: rs)
+
 /-! ## streams -/
 
 /-- `iter(lambda: stream.read(c), b'')`: the pieces an upload sends (needs fuel only for `c = 0`, where Python's
